@@ -83,6 +83,9 @@ func (s *Sched) Run(tasks []func(e *Env)) {
 	s.running = true
 	setHook(libHook)
 	setPerm(libPerm)
+	setClock(libClock)
+	setSleep(libSleep)
+	setExit(libExit)
 	defer func() { s.running = false; Deactivate() }()
 
 	for i := range tasks {
